@@ -100,5 +100,38 @@ theorem fresh_after_close (evs : List MemEv) : memRun (evs ++ [.closed]) = 0 ∧
 
 example : memRun [.opened, .syncResult 4152, .closed] = 0 ∧ memRun [.opened, .syncResult 4152] = 4152 := by decide
 
+/-! ### Run-time recovery of the local state (repair of finding F3)
+
+`ResetLocalState` leaves the position at zero.  The repaired code marks the baseline as
+pending, and the next executor re-runs the check `init` runs for a database that is behind
+its replica, so the local position becomes the replica's newest TXID. -/
+
+def expectedRecovery : List (String × String) := [
+  ("ResetLocalState: baselinePending.Store(true)", ""),
+  ("newSyncExecutor: checkDatabaseBehindReplica(ctx)", "db.baselinePending.Load() && db.Replica != nil"),
+  ("newSyncExecutor: baselinePending.Store(false)", "db.baselinePending.Load()"),
+  ("init: checkDatabaseBehindReplica(ctx)", "db.Replica != nil")]
+
+theorem gen_recovery_eq : Gen.StateWrites.recovery = expectedRecovery := by
+  unfold Gen.StateWrites.recovery expectedRecovery; rfl
+
+/-- Position after `checkDatabaseBehindReplica` (the same function as `C04.initPos`, restated here
+    so this module stays independent of the decision model). -/
+def basePos (localMax replicaMax : Nat) : Nat := if localMax ≥ replicaMax then localMax else replicaMax
+
+/-- `Replica.syncOnce`'s upload loop: uploads `rpos+1 … dpos`, reports success. -/
+def uploadOk (dpos rpos : Nat) : Nat := if rpos < dpos then dpos else rpos
+
+/-- **After a run-time reset the next file lies above the replica and is uploaded.** With the
+    baseline re-established (local position `basePos 0 replicaMax`), the next L0 file has a TXID
+    above everything on the replica, and a successful `Replica.Sync` leaves the replica at the
+    database position — no silent stall.  (The old code continued from position 0:
+    `C04.f3_runtime_reset_breaks_both`.) -/
+theorem runtime_reset_recovers (replicaMax : Nat) :
+    replicaMax < basePos 0 replicaMax + 1 ∧
+    uploadOk (basePos 0 replicaMax + 1) replicaMax = basePos 0 replicaMax + 1 := by
+  unfold basePos uploadOk
+  constructor <;> (split <;> (try split) <;> omega)
+
 end C04
 end Litestream
